@@ -349,6 +349,8 @@ def run(chk):
         "harness tools/props/c11.py + tools/vlib/readerlib.py; its renderer is cross-checked against Spec.renderInputs on every case",
     ]
     leanio.prove(chk, "MontePyVerif.Props.C11", THEOREMS, "MontePyVerif.C11")
+    if chk.thorough:
+        leanio.leanchecker(chk, ["MontePyVerif.Props.C11"])
     drv = leanio.Driver(chk, "drv_c20")
 
     rng = chk.rng("layouts")
